@@ -6,8 +6,50 @@ ASSUMPTIONS = ["every instruction line keeps a raw-byte column of at least one b
                "objdump --no-show-raw-insn, lose every instruction: known finding D12)"]
 
 
+def prefixed_pairs(ctx, n):
+    """lines objdump prints with a prefix word in front of the mnemonic (`data16 lea …`, `lock cmpxchg …`, `rep stos …`,
+    `notrack jmp …`, `bnd jmp …`): the same line with and without its `<symbol+off>` annotation / `# comment`, with a
+    different comment, with another raw-byte column - the instruction stream must be the same"""
+    g, rep = ctx.g, ctx.report
+    bodies = [("data16 lea", "0x2f5c(%rip),%rdi"), ("data16 rex.W call", "1030"), ("data16 cs nopw", "0x0(%rax,%rax,1)"),
+              ("lock cmpxchg", "%rcx,0x8(%rdx)"), ("rep stos", "%al,%es:(%rdi)"), ("notrack jmp", "*%rax"), ("bnd jmp", "401000"),
+              ("data16 xchg", "%ax,%ax"), ("data16 call", "401020"), ("repz cmpsb", "%es:(%rdi),%ds:(%rsi)"), ("data16", "")]
+    for _ in range(n):
+        rows = [g.pick(bodies) for _ in range(g.int(1, 4))]
+
+        def render(variant):
+            out, addr = ["", "0000000000001130 <f>:"], 0x1130
+            for i, (pre, ops) in enumerate(rows):
+                nb = 3 + i
+                bytes_col = " ".join(["66"] * nb) if variant != 2 else " ".join(["0f"] * nb)
+                tail = ""
+                if variant in (1, 3) and ops:
+                    hexish = ops.replace("*", "")
+                    direct = all(c in "0123456789abcdef" for c in hexish) and not ops.startswith("*")
+                    tail = (" <%s>" % g.pick(["sym+0x10", "__tls_get_addr@plt", "f"])) if direct else \
+                           ("        # %x <%s>" % (0x3fd8 + i, g.pick(["tls_var@@Base+0x3fd8", "g+0x4", "x"])))
+                    if variant == 3:
+                        tail = tail.replace("<", "<other_")
+                out.append("    %x:\t%s \t%s%s%s" % (addr, bytes_col.ljust(20), pre, ("    " + ops) if ops else "", tail))
+                addr += nb
+            return "\n".join(out) + "\n"
+        texts = [render(v) for v in (0, 1, 2, 3)]
+        streams = [impl.stream_of(ctx.scratch, t) for t in texts]
+        case = {"listing_plain": texts[0], "listing_annotated": texts[1]}
+        for k in (1, 2, 3):
+            if streams[k] != streams[0]:
+                rep.violate("presentation-changes-the-stream(prefixed lines)",
+                            {"listing_1": texts[0], "listing_2": texts[k], "edit": ["", "annotations/comments added", "raw-byte column changed", "annotations/comments changed"][k]},
+                            "equal streams", {"stream_1": streams[0], "stream_2": streams[k]}, model_agrees_with_spec=None)
+                break
+        rep.case(case, streams[0][0] == "ok", tags=["prefixed-line-pairs"])
+        if rep.has_new() and ctx.tier == "thorough":
+            return
+
+
 def run(ctx, factor):
     g, rep = ctx.g, ctx.report
+    prefixed_pairs(ctx, ctx.budget(40, 600) * factor)
     rep.rule = ("pairs of grammar listings with the same instruction sequence and random presentation edits (labels, "
                 "<symbol+off> annotations, # comments, blank lines, section / file-format headers, indentation, width and "
                 "content of the raw-byte column, continuation lines, \\r\\n line ends) at random positions: the real streams must be equal, "
